@@ -83,6 +83,9 @@ func VX_C12_dispatch_N4() { vxDispatch(4) }
 
 // ----- stubs for the environment of main() -----
 
+// VXExpectPrefix is set by the main() harness: plugin name -> the prefix it must end up with.
+var VXExpectPrefix map[string]string
+
 type vxProgram struct{}
 
 func (vxProgram) Generate() error { return nil }
@@ -93,7 +96,7 @@ func VXStub_ImportPaths(args []string) []string { return nil }
 // that main hands to the loader.
 func VXStub_plugins_Load(p *plugins, paths []string) (Program, error) {
 	// longest-match dispatch on the names that nested custom prefixes make ambiguous
-	names := []string{"cmpEq", "eqOrdX", "deriveSet2X", "deriveHashMemX", "mmmX", "mmX", "genSortedX", "deriveSortedX"}
+	names := []string{"cmpEq", "eqOrdX", "deriveSet2X", "deriveHashMemX", "mmmX", "mmX", "genSortedX", "deriveSortedX", "deriveEqualX", "deriveCmpX", "genHashX"}
 	ok := true
 	for _, n := range names {
 		first, best, bestLen := -1, -1, -1
@@ -113,6 +116,14 @@ func VXStub_plugins_Load(p *plugins, paths []string) (Program, error) {
 		}
 	}
 	vx.Assert(ok, "the first matching plugin is the one with the longest matching prefix")
+	// customised prefixes arrive unchanged: an override is taken literally, every other prefix has "derive" replaced
+	pref := true
+	for i := 0; i < len(p.plugins); i++ {
+		if want, has := VXExpectPrefix[p.plugins[i].Name()]; has && p.plugins[i].GetPrefix() != want {
+			pref = false
+		}
+	}
+	vx.Assert(pref, "every plugin listens on exactly the prefix the flags give it")
 	return vxProgram{}, nil
 }
 
